@@ -59,16 +59,17 @@ MFoldExact(st, y) == \A o \in Neurons : st.cnt = 0 \/ (RS * y[o] - st.mu[o]) % (
 Out(st, r) == [st |-> st, ret |-> r]
 
 \* LinearHomeostasis.forward: k = (target - rate) / target, times (-)plasticity, clamp split
-MCall(st, tinv0) ==
+\* sel: "all" (cells = None), "this" (cells = [the cell's name]), "other" (cells = [another name]: the cell is skipped)
+MCall(st, tinv0, sel) ==
   LET tinv == IF tinv0 = 0 THEN DefTinv ELSE tinv0
       k(o) == Sgn * (60 - tinv * st.mu[o])           \* US * lambda * (1 - mu / rT)  with mu carried * RS
-  IN IF ~st.training THEN Out(st, [t |-> "skipped"])
+  IN IF ~st.training \/ sel = "other" THEN Out(st, [t |-> "skipped"])
      ELSE IF st.cnt = 0 THEN Out(st, [t |-> "raises"])              \* nothing observed yet: peek() is None
      ELSE Out(st, [t |-> "parts", pos |-> [o \in Neurons |-> MaxI(k(o), 0)], neg |-> [o \in Neurons |-> MinI(k(o), 0)]])
 
 MApply(st, op) ==
   CASE op.a = "step" -> IF st.training THEN Out(MFold(st, op.y), [t |-> "ok"]) ELSE Out(st, [t |-> "ok"])
-    [] op.a = "call" -> MCall(st, op.tinv)
+    [] op.a = "call" -> MCall(st, op.tinv, op.sel)
     [] op.a = "clear" -> Out([st EXCEPT !.h = <<>>, !.cnt = 0, !.mu = [o \in Neurons |-> 0]], [t |-> "ok"])
     [] op.a = "mode" -> Out([st EXCEPT !.training = op.b], [t |-> "ok"])
 
